@@ -51,6 +51,12 @@ type c10Pt struct {
 	Kind string `json:"kind"`
 	T    int64  `json:"t"`
 	V    sk.Val `json:"-"`
+	// optional second field of the same point (multi-field points: a rejected point may have
+	// registered its other, new field as a side effect - resolved by observation, then it
+	// must persist like any other field)
+	F2    string `json:"f2,omitempty"`
+	Kind2 string `json:"kind2,omitempty"`
+	V2    sk.Val `json:"-"`
 }
 
 type c10Op struct {
@@ -68,6 +74,9 @@ func (o c10Op) String() string {
 				s += " "
 			}
 			s += fmt.Sprintf("%s,h=%s %s=%s@%d", p.M, p.Tag, p.F, p.V, p.T)
+			if p.F2 != "" {
+				s += fmt.Sprintf("+%s=%s", p.F2, p.V2)
+			}
 		}
 		return s + "]"
 	case "drop":
@@ -190,7 +199,8 @@ func c10History(r *vkit.Run, caseNo int, rg *vkit.Rand) {
 		switch {
 		case x < 60:
 			o.Kind = "write"
-			for j := 0; j < rg.Range(1, 5); j++ {
+			npts := rg.Range(1, 5)
+			for j := 0; j < npts; j++ {
 				me := vkit.Pick(rg, c10Measurements)
 				f := vkit.Pick(rg, c10Fields)
 				k := vkit.Pick(rg, c10Kinds)
@@ -199,7 +209,22 @@ func c10History(r *vkit.Run, caseNo int, rg *vkit.Rand) {
 				}
 				vn++
 				tn++
-				o.Pts = append(o.Pts, c10Pt{M: me, Tag: vkit.Pick(rg, []string{"a", "b"}), F: f, Kind: string(k), T: tn, V: c10Val(k, vn)})
+				pt := c10Pt{M: me, Tag: vkit.Pick(rg, []string{"a", "b"}), F: f, Kind: string(k), T: tn, V: c10Val(k, vn)}
+				// only the last point of a batch is multi-field: a rejected multi-field point may
+				// register its new field, which would make the fate of later points ambiguous
+				if j == npts-1 && rg.Chance(1, 2) {
+					f2 := "x"
+					if f == "x" {
+						f2 = "y"
+					}
+					k2 := vkit.Pick(rg, c10Kinds)
+					if have, ok := schema[me][f2]; ok && rg.Chance(1, 2) {
+						k2 = have
+					}
+					vn++
+					pt.F2, pt.Kind2, pt.V2 = f2, string(k2), c10Val(k2, vn)
+				}
+				o.Pts = append(o.Pts, pt)
 			}
 		case x < 72:
 			o.Kind, o.M = "drop", vkit.Pick(rg, c10Measurements)
@@ -221,22 +246,45 @@ func c10History(r *vkit.Run, caseNo int, rg *vkit.Rand) {
 			wantDropped := 0
 			before := schema.clone()
 			var accepted []c10Pt
+			type maybeField struct {
+				m, f string
+				k    byte
+			}
+			var maybe []maybeField
 			for _, p := range o.Pts {
-				k := p.Kind[0]
-				if have, ok := schema[p.M][p.F]; ok && have != k {
+				fields := map[string]sk.Val{p.F: p.V}
+				fk := map[string]byte{p.F: p.Kind[0]}
+				if p.F2 != "" {
+					fields[p.F2] = p.V2
+					fk[p.F2] = p.Kind2[0]
+				}
+				conflict := false
+				for f, k := range fk {
+					if have, ok := schema[p.M][f]; ok && have != k {
+						conflict = true
+					}
+				}
+				if conflict {
 					wantDropped++
 					conflicts++
+					for f, k := range fk { // new fields of a rejected point: registered or not, either
+						if _, ok := schema[p.M][f]; !ok {
+							maybe = append(maybe, maybeField{p.M, f, k})
+						}
+					}
 				} else {
 					if schema[p.M] == nil {
 						schema[p.M] = map[string]byte{}
 					}
-					if _, ok := schema[p.M][p.F]; !ok && droppedOnce[p.M] {
-						rewrites++
+					for f, k := range fk {
+						if _, ok := schema[p.M][f]; !ok && droppedOnce[p.M] {
+							rewrites++
+						}
+						schema[p.M][f] = k
 					}
-					schema[p.M][p.F] = k
 					accepted = append(accepted, p)
 				}
-				pts = append(pts, sk.Point(p.M, map[string]string{"h": p.Tag}, map[string]sk.Val{p.F: p.V}, p.T))
+				pts = append(pts, sk.Point(p.M, map[string]string{"h": p.Tag}, fields, p.T))
 			}
 			_ = before
 			err := s.Write(pts)
@@ -256,6 +304,29 @@ func c10History(r *vkit.Run, caseNo int, rg *vkit.Rand) {
 			}
 			for _, p := range accepted {
 				m.Put(sk.SeriesKey(p.M, map[string]string{"h": p.Tag}), p.F, p.T, p.V)
+				if p.F2 != "" {
+					m.Put(sk.SeriesKey(p.M, map[string]string{"h": p.Tag}), p.F2, p.T, p.V2)
+				}
+			}
+			// resolve the side-effect fields by observation; a later point of the same batch may
+			// also have registered the field with its own type, which the model then already has
+			for _, mf := range maybe {
+				if _, ok := schema[mf.m][mf.f]; ok {
+					continue
+				}
+				if got := s.Sh.MeasurementFields([]byte(mf.m)); got != nil {
+					if t, ok := got.FieldSet()[mf.f]; ok {
+						if t != c10DataType(mf.k) {
+							fail("schema_mismatch", feats, i, fmt.Sprintf("field %s.%s of a rejected point registered as %v, written as %c", mf.m, mf.f, t, mf.k))
+							return
+						}
+						if schema[mf.m] == nil {
+							schema[mf.m] = map[string]byte{}
+						}
+						schema[mf.m][mf.f] = mf.k
+						r.Event("fields_registered_by_rejected_point", 1)
+					}
+				}
 			}
 			r.Event("write_points", int64(len(o.Pts)))
 			r.Event("write_points_rejected", int64(wantDropped))
